@@ -324,6 +324,9 @@ func c20Err(err error) string {
 	case errors.Is(err, storage.ErrNotImplemented):
 		return "NotImplemented"
 	}
+	if strings.Contains(err.Error(), "c20 reader failure") {
+		return "ReadErr"
+	}
 	return "Err(" + strings.ReplaceAll(err.Error(), " ", "_") + ")"
 }
 
